@@ -264,12 +264,42 @@ def collector_checks(rep, lv, appends):
     for st in lv:
         recv_conds = [(c, v) for c, v in st.asm.items() if isinstance(c, tuple) and c and c[0] == 'iterhas' and
                       isinstance(c[2], tuple) and c[2] and c[2][0] == 'recv']
+        ret = st.ret
+        if not recv_conds and isinstance(ret, tuple) and ret and ret[0] == 'app' and ret[1] == 'fold' and len(ret[2]) == 3 and \
+                ret[2][0][:2] == ('iter', 'recv'):
+            # `rx.into_iter().fold(init, |acc, m| ..)`: the receiver's iterator ends exactly when recv() fails
+            rep.ob('R15.1', 'collector-exits-on-closed-channel', True, 'a fold over the receiver\'s iterator ends only when recv() fails')
+            pit, init, body = ret[2]
+            elem_ok = True
+            x = body
+            n = 0
+            while isinstance(x, tuple) and x and x[0] == 'app' and x[1] == 'map_append' and n < 10:
+                recvd = x[2][1]
+                if not (recvd[0] == 'iterval' and recvd[2] == pit):
+                    elem_ok = False
+                x = x[2][0]
+                n += 1
+            okm = elem_ok and n >= 1 and x[0] == 'foldacc' and x[2] == init and init == ('map', None, ())
+            rep.ob('R15.4', 'collector-only-appends', okm if (okm or body[0] == 'app') else None,
+                   'returns the union of the received maps (fold of BTreeMap::append from an empty map)'
+                   if okm else f'collector returns {show(ret, maxd=4)[:140]}')
+            continue
+        timed = [(c, v) for c, v in st.asm.items() if isinstance(c, tuple) and c and c[0] == 'iterhas' and
+                 isinstance(c[2], tuple) and c[2] and c[2][0] == 'recv_timed']
+        if not recv_conds and timed:
+            rep.ob('R15.1', 'collector-exits-on-closed-channel', False,
+                   'the collector leaves its loop when a timed or non-blocking receive fails - a timeout or an empty queue, not a closed '
+                   'channel: results still on their way are lost')
+            continue
+        if not recv_conds:
+            # no receive seen on this outcome at all: the code that drains the channel was not understood
+            rep.ob('R15.1', 'collector-exits-on-closed-channel', None, f'no receive recognised on this outcome: {show(ret, maxd=3)[:100]}')
+            continue
         ok = bool(recv_conds) and all(v is False for _, v in recv_conds)
         rep.ob('R15.1', 'collector-exits-on-closed-channel', ok,
                'the collector returns only after recv() failed (all senders gone)' if ok else
                'the collector can return while messages may still arrive: ' + str([(show(c, maxd=2)[:60], v) for c, v in recv_conds]))
         # the returned map: built from appends of received maps only
-        ret = st.ret
         okm = True
         x = ret
         n = 0
